@@ -183,9 +183,9 @@ func arraySort(nidx int, leaf string) string {
 // Script accumulates declarations and assertions in program order. An
 // obligation's query is every line before its position plus the negated goal.
 type Script struct {
-	lines   []string
+	lines    []string
 	declared map[string]bool
-	nfresh  int
+	nfresh   int
 }
 
 func newScript() *Script {
